@@ -118,6 +118,21 @@ type pushCase struct {
 	mayReturnNode bool
 	// keep: fields of the result that must equal the given canonical form
 	keep map[string]string
+	// pairedKeys: the existing join keys must be carried over at the same end of LeftKey and RightKey
+	pairedKeys bool
+}
+
+// keyOrder says where the existing key list sits in an `append(a;[b…])` canon.
+func keyOrder(canon, existing string) string {
+	switch {
+	case strings.HasPrefix(canon, "append("+existing+";") && strings.Count(canon, existing) == 1:
+		return "existing first"
+	case strings.HasPrefix(canon, "append(") && strings.HasSuffix(canon, ";["+existing+"…])") && strings.Count(canon, existing) == 1:
+		return "existing last"
+	case strings.HasPrefix(canon, "[") && strings.HasSuffix(canon, ","+existing+"…]") && strings.Count(canon, existing) == 1:
+		return "existing last"
+	}
+	return "?"
 }
 
 func runPushdown(c *core.Ctx, rule, rel, fname, srcType string, classes []pushCase,
@@ -209,6 +224,18 @@ func runPushdown(c *core.Ctx, rule, rel, fname, srcType string, classes []pushCa
 					bad = fmt.Sprintf("a predicate of class %q must end up at [%s]; it ends up at %s", cs.class, strings.Join(want, " | "), where)
 				}
 			}
+			if cs.pairedKeys {
+				// LeftKey[i] is compared with RightKey[i]: the existing keys must sit at the same end of both lists
+				lk, rk := fieldAt(o, ret, "StreamJoin.LeftKey"), fieldAt(o, ret, "StreamJoin.RightKey")
+				if lk == nil || rk == nil {
+					bad = "the rewritten join has no LeftKey/RightKey"
+				} else {
+					lo, ro := keyOrder(lk.Canon(), "node.Filter.Source.StreamJoin.LeftKey"), keyOrder(rk.Canon(), "node.Filter.Source.StreamJoin.RightKey")
+					if lo == "?" || lo != ro {
+						bad = fmt.Sprintf("class %q: LeftKey[i] pairs with RightKey[i], so the existing keys must be carried over at the same end of both lists; LeftKey = %s (%s), RightKey = %s (%s)", cs.class, o.Show(lk), lo, o.Show(rk), ro)
+					}
+				}
+			}
 			for path, want := range cs.keep {
 				v := fieldAt(o, ret, path)
 				if v == nil || v.Canon() != want {
@@ -264,76 +291,7 @@ func runC04(c *core.Ctx) {
 		}, nil, nil
 	})
 
-	// --- stream join key
-	first, second := P+".FunctionCall.Arguments[0]", P+".FunctionCall.Arguments[1]"
-	var keyCases []pushCase
-	sides := []string{"L", "R", "LR", "none"}
-	for _, a := range sides {
-		for _, b := range sides {
-			cs := pushCase{class: "= first:" + a + " second:" + b}
-			switch {
-			case a == "L" && b == "R":
-				cs.want = map[string][]string{first: {"StreamJoin.LeftKey"}, second: {"StreamJoin.RightKey"}, P: nil}
-			case a == "R" && b == "L":
-				cs.want = map[string][]string{first: {"StreamJoin.RightKey"}, second: {"StreamJoin.LeftKey"}, P: nil}
-			default:
-				cs.want = map[string][]string{P: {topArgs}}
-				cs.mayReturnNode = true
-			}
-			if cs.mayReturnNode {
-				cs.keep = map[string]string{}
-			} else {
-				cs.keep = map[string]string{"StreamJoin.Left": "node.Filter.Source.StreamJoin.Left", "StreamJoin.Right": "node.Filter.Source.StreamJoin.Right"}
-			}
-			keyCases = append(keyCases, cs)
-		}
-	}
-	keyCases = append(keyCases,
-		pushCase{class: "not a function call", want: map[string][]string{P: {topArgs}}, mayReturnNode: true},
-		pushCase{class: "function other than =", want: map[string][]string{P: {topArgs}}, mayReturnNode: true})
-	fcConst := lookupConst(c.Prog, "physical", "ExpressionTypeFunctionCall")
-	varConst := lookupConst(c.Prog, "physical", "ExpressionTypeVariable")
-	runPushdown(c, "OPT1", "optimizer", "PushDownFilterPredicatesIntoStreamJoinKey", "NodeTypeStreamJoin", keyCases,
-		func(cls func() string) (callHook, func(*absint.State, string) (bool, bool), func(*absint.State, absint.Val, string) (absint.Val, bool)) {
-			side := func(part string) string {
-				m := regexp.MustCompile(`first:(\w+) second:(\w+)`).FindStringSubmatch(cls())
-				if m == nil {
-					return "none"
-				}
-				if part == "0" {
-					return m[1]
-				}
-				return m[2]
-			}
-			return func(st *absint.State, cl *ast.CallExpr, callee string, recv absint.Val, args []absint.Val) (absint.Val, bool) {
-					if callee == "optimizer.UsesVariablesFromSchema" && len(args) == 2 {
-						left := strings.Contains(args[0].Canon(), ".Left.")
-						part := "1"
-						if strings.Contains(args[1].Canon(), "Arguments[0]") {
-							part = "0"
-						}
-						s := side(part)
-						if left {
-							return absint.Bool(s == "L" || s == "LR"), true
-						}
-						return absint.Bool(s == "R" || s == "LR"), true
-					}
-					return nil, false
-				}, func(st *absint.State, atom string) (bool, bool) {
-					if strings.Contains(atom, ".FunctionCall.Name") && strings.Contains(atom, `"="`) {
-						return cls() != "function other than =", true
-					}
-					return false, false
-				}, func(st *absint.State, base absint.Val, sel string) (absint.Val, bool) {
-					if sel == "ExpressionType" && base.Canon() == P {
-						if cls() == "not a function call" {
-							return varConst, true
-						}
-						return fcConst, true
-					}
-					return nil, false
-				}
-		})
+	checkStreamJoinKeyPushdown(c)
 
 	// --- lookup join branch
 	runPushdown(c, "OPT1", "optimizer", "PushDownFilterPredicatesIntoLookupJoinBranch", "NodeTypeLookupJoin", []pushCase{
@@ -786,4 +744,81 @@ func checkPruners(c *core.Ctx) {
 			c.Decide(bad == "" && n > 0, "OPT3", ckey, lit.Pos(), len(outs), "", bad)
 		}
 	}
+}
+
+// checkStreamJoinKeyPushdown: `a = b` predicates above a stream join become key pairs (OPT1, shared by C02 and C04).
+func checkStreamJoinKeyPushdown(c *core.Ctx) {
+	const P = "SPLIT(node.Filter.Predicate)[i@L1]"
+	topArgs := "Filter.Predicate.And.Arguments"
+	// --- stream join key
+	first, second := P+".FunctionCall.Arguments[0]", P+".FunctionCall.Arguments[1]"
+	var keyCases []pushCase
+	sides := []string{"L", "R", "LR", "none"}
+	for _, a := range sides {
+		for _, b := range sides {
+			cs := pushCase{class: "= first:" + a + " second:" + b}
+			switch {
+			case a == "L" && b == "R":
+				cs.want = map[string][]string{first: {"StreamJoin.LeftKey"}, second: {"StreamJoin.RightKey"}, P: nil}
+			case a == "R" && b == "L":
+				cs.want = map[string][]string{first: {"StreamJoin.RightKey"}, second: {"StreamJoin.LeftKey"}, P: nil}
+			default:
+				cs.want = map[string][]string{P: {topArgs}}
+				cs.mayReturnNode = true
+			}
+			if cs.mayReturnNode {
+				cs.keep = map[string]string{}
+			} else {
+				cs.keep = map[string]string{"StreamJoin.Left": "node.Filter.Source.StreamJoin.Left", "StreamJoin.Right": "node.Filter.Source.StreamJoin.Right"}
+				cs.pairedKeys = true
+			}
+			keyCases = append(keyCases, cs)
+		}
+	}
+	keyCases = append(keyCases,
+		pushCase{class: "not a function call", want: map[string][]string{P: {topArgs}}, mayReturnNode: true},
+		pushCase{class: "function other than =", want: map[string][]string{P: {topArgs}}, mayReturnNode: true})
+	fcConst := lookupConst(c.Prog, "physical", "ExpressionTypeFunctionCall")
+	varConst := lookupConst(c.Prog, "physical", "ExpressionTypeVariable")
+	runPushdown(c, "OPT1", "optimizer", "PushDownFilterPredicatesIntoStreamJoinKey", "NodeTypeStreamJoin", keyCases,
+		func(cls func() string) (callHook, func(*absint.State, string) (bool, bool), func(*absint.State, absint.Val, string) (absint.Val, bool)) {
+			side := func(part string) string {
+				m := regexp.MustCompile(`first:(\w+) second:(\w+)`).FindStringSubmatch(cls())
+				if m == nil {
+					return "none"
+				}
+				if part == "0" {
+					return m[1]
+				}
+				return m[2]
+			}
+			return func(st *absint.State, cl *ast.CallExpr, callee string, recv absint.Val, args []absint.Val) (absint.Val, bool) {
+					if callee == "optimizer.UsesVariablesFromSchema" && len(args) == 2 {
+						left := strings.Contains(args[0].Canon(), ".Left.")
+						part := "1"
+						if strings.Contains(args[1].Canon(), "Arguments[0]") {
+							part = "0"
+						}
+						s := side(part)
+						if left {
+							return absint.Bool(s == "L" || s == "LR"), true
+						}
+						return absint.Bool(s == "R" || s == "LR"), true
+					}
+					return nil, false
+				}, func(st *absint.State, atom string) (bool, bool) {
+					if strings.Contains(atom, ".FunctionCall.Name") && strings.Contains(atom, `"="`) {
+						return cls() != "function other than =", true
+					}
+					return false, false
+				}, func(st *absint.State, base absint.Val, sel string) (absint.Val, bool) {
+					if sel == "ExpressionType" && base.Canon() == P {
+						if cls() == "not a function call" {
+							return varConst, true
+						}
+						return fcConst, true
+					}
+					return nil, false
+				}
+		})
 }
